@@ -513,9 +513,9 @@ fn same_kind(a: &OneResult, b: &OneResult) -> bool {
 /// shrink a crashing / hanging case with one fresh process per candidate
 fn shrink_isolated(prop: &dyn Property, tier: Tier, bytes: Vec<u8>, kind: &OneResult, scratch: &Path) -> Vec<u8> {
     let mut cur = bytes;
-    let mut budget = 120;
+    let mut budget = if matches!(kind, OneResult::Hang) { 40 } else { 120 };
     let timeout = if matches!(kind, OneResult::Hang) {
-        Duration::from_secs(4)
+        Duration::from_millis(1500)
     } else {
         prop.case_timeout()
     };
@@ -728,6 +728,7 @@ pub fn parent_main(prop: &dyn Property, tier: Tier) -> i32 {
     let mut labels: BTreeMap<String, u64> = BTreeMap::new();
     let mut nontrivial: BTreeSet<String> = BTreeSet::new();
     let mut samples: Vec<J> = vec![];
+    let mut shrunk_kinds: BTreeSet<String> = BTreeSet::new();
     for w in ws.iter() {
         if let Some(ab) = &w.abnormal {
             // identify the case that was running
@@ -762,7 +763,12 @@ pub fn parent_main(prop: &dyn Property, tier: Tier) -> i32 {
                     }
                 }
                 Some(kind) => {
-                    let small = shrink_isolated(prop, tier, bytes, &kind, &scratch);
+                    let kind_name = format!("{:?}", kind);
+                    let small = if shrunk_kinds.insert(kind_name) {
+                        shrink_isolated(prop, tier, bytes, &kind, &scratch)
+                    } else {
+                        bytes
+                    };
                     let f = match &kind {
                         OneResult::Crash(sig) => Failure::new(
                             "no_crash",
